@@ -17,6 +17,9 @@ static IMB_MGR *mgr;
 static uint8_t key128[16] = { 1, 2, 3, 4, 5, 6, 7, 8, 9, 10, 11, 12, 13, 14, 15, 16 };
 static DECLARE_ALIGNED(uint32_t enc_keys[15 * 4], 16);
 static DECLARE_ALIGNED(uint32_t dec_keys[15 * 4], 16);
+static uint8_t key256[32] = { 9, 8, 7, 6, 5, 4, 3, 2, 1, 10, 11, 12, 13, 14, 15, 16, 17, 18, 19, 20, 21, 22, 23, 24, 25, 26, 27, 28, 29, 30, 31, 32 };
+static DECLARE_ALIGNED(uint32_t enc_keys256[15 * 4], 16);
+static DECLARE_ALIGNED(uint32_t dec_keys256[15 * 4], 16);
 static struct gcm_key_data gcm_key;
 static uint8_t ipad[64], opad[64];
 
@@ -153,6 +156,23 @@ fill(IMB_JOB *job, int kind, uint64_t id, unsigned len)
                 job->u.HMAC._hashed_auth_key_xor_opad = opad;
                 job->auth_tag_output_len_in_bytes = 12;
                 break;
+        case 12: /* DOCSIS-SEC-BPI + DOCSIS-CRC32, "no cipher, no CRC" (both lengths 0): a valid job that every */
+        case 13: /* variant completes in its submit wrapper without entering a lane; 12/13 encrypt 128/256-bit key, */
+        case 14: /* 14/15 decrypt 128/256-bit key */
+        case 15:
+                job->cipher_mode = IMB_CIPHER_DOCSIS_SEC_BPI;
+                job->hash_alg = IMB_AUTH_DOCSIS_CRC32;
+                job->cipher_direction = kind >= 14 ? IMB_DIR_DECRYPT : IMB_DIR_ENCRYPT;
+                job->chain_order = kind >= 14 ? IMB_ORDER_CIPHER_HASH : IMB_ORDER_HASH_CIPHER;
+                if (kind & 1) {
+                        job->key_len_in_bytes = 32;
+                        job->enc_keys = enc_keys256;
+                        job->dec_keys = dec_keys256;
+                }
+                job->msg_len_to_cipher_in_bytes = 0;
+                job->msg_len_to_hash_in_bytes = 0;
+                job->auth_tag_output_len_in_bytes = 4;
+                break;
         case 9: /* invalid: NULL source */
                 job->cipher_mode = IMB_CIPHER_CBC;
                 job->src = NULL;
@@ -238,6 +258,7 @@ main(int argc, char **argv)
                 return 2;
         }
         IMB_AES_KEYEXP_128(mgr, key128, enc_keys, dec_keys);
+        IMB_AES_KEYEXP_256(mgr, key256, enc_keys256, dec_keys256);
         IMB_AES128_GCM_PRE(mgr, key128, &gcm_key);
         imb_hmac_ipad_opad(mgr, IMB_AUTH_HMAC_SHA_1, key128, 16, ipad, opad);
         printf("# sizeof_job=%d max_jobs=%d max_burst=%d arch=%d features=%llx\n", (int) sizeof(IMB_JOB),
